@@ -220,6 +220,7 @@ func c20Tries(c *fw.Ctx, round int) {
 				ts.Match([]byte(fmt.Sprintf("seedleaf/l%d/below/a/loaded/leaf", li)), &out)
 				ss.Walk([]byte(fmt.Sprintf("seedleaf/l%d/below", li)), func([]byte) {})
 				ts.Count()
+				ts.Iterate(func([]byte) {})
 				ss.Walk([]byte(k), func([]byte) {})
 				ss.Iterate(func([]byte) {})
 			}
@@ -438,6 +439,80 @@ func c20MergeRace(c *fw.Ctx, round int) {
 	}
 }
 
+// c20HotTopic: a node's own retained writes on one topic race (a) with merges of a peer's updates of
+// the same topic that are stamped ahead of the local clock and (b) with each other. Whatever the
+// interleaving, a follower that receives every broadcast the node queued plus the peer's updates must
+// list what the node lists (the node must not keep an entry every other replica rejects).
+func c20HotTopic(c *fw.Ctx, round int) {
+	bad := 0
+	var witness string
+	rounds := c.Pick(150, 600)
+	for r := 0; r < rounds; r++ {
+		var tick int64
+		distributed.VerifSetClock(func() int64 { return 5000000 + atomic.AddInt64(&tick, 1) })
+		a := kit.NewReplica(1)
+		peer := [][]byte{}
+		for i := 0; i < 3; i++ {
+			// ahead of a's clock by far
+			peer = append(peer, kit.EncodeEvent(&api.StateBroadcastEvent{RetainedMessages: []*api.RetainedMessage{{
+				Publish: &packet.Publish{Header: &packet.Header{}, Topic: []byte("mp/hot"), Payload: []byte(fmt.Sprintf("peer%d", i))}, LastAdded: 9000000 + int64(i)}}}))
+		}
+		var wg sync.WaitGroup
+		start := make(chan struct{})
+		for g := 0; g < 3; g++ {
+			wg.Add(1)
+			go func(g int) {
+				defer wg.Done()
+				<-start
+				if r%2 == 0 || g > 0 {
+					a.S.Topics().Set(&packet.Publish{Header: &packet.Header{Retain: true}, Topic: []byte("mp/hot"), Payload: []byte(fmt.Sprintf("local%d", g))})
+				}
+				if g == 0 && r%2 == 1 {
+					a.S.Topics().Delete([]byte("mp/hot"))
+				}
+			}(g)
+		}
+		wg.Add(1)
+		go func() {
+			defer wg.Done()
+			<-start
+			for _, p := range peer {
+				a.Deliver(p)
+			}
+		}()
+		close(start)
+		wg.Wait()
+		f := kit.NewReplica(2)
+		own := a.Drain()
+		for _, p := range peer {
+			f.Deliver(p)
+		}
+		for _, p := range own {
+			f.Deliver(p)
+		}
+		ref := model.NewLWW()
+		for _, p := range append(append([][]byte{}, peer...), own...) {
+			if ev, err := kit.DecodeEvent(p); err == nil {
+				ref.ApplyEvent(ev)
+			}
+		}
+		if ref.Ties > 0 {
+			continue
+		}
+		if got, want := a.Canon().String(), f.Canon().String(); got != want {
+			bad++
+			if witness == "" {
+				witness = fmt.Sprintf("node lists %s, a follower fed with the same updates lists %s", got, want)
+			}
+		}
+	}
+	c.Observe("hot_topic_rounds", rounds)
+	c.Case(fmt.Sprintf("hot-topic|%d", round), true)
+	if bad > 0 {
+		c.Violation("replicated-state-lost-update:local-write-vs-merge", fmt.Sprintf("hot-topic round %d: in %d of %d rounds %s", round, bad, rounds, fw.Short(witness, 500)), map[string]interface{}{"round": round, "bad_rounds": bad, "example": witness})
+	}
+}
+
 // ---- 6. a session's filter list -----------------------------------------------------------------
 
 func c20SessionTopics(c *fw.Ctx, round int) {
@@ -611,7 +686,7 @@ func c20Broker(c *fw.Ctx, round int) {
 }
 
 func runC20(c *fw.Ctx) {
-	c.Rule = "built with the Go race detector (GORACE halt_on_error=0, reports collected by the parent and de-duplicated by the pair of outermost non-runtime frames). Repeated randomized stress on all cores, few keys, many goroutines: (1) session registry Create/Get/Delete/ListSessions checked with porcupine against a per-key register; (2) identifier pool Get/Put with a shadow set updated under the harness's lock; (3) in-flight table Insert/Ack/Expire on shared keys with a concurrent sweeper, exactly one outcome per registration; (4) both tries, writers on distinct keys and readers on all (also on stores rebuilt by Load), every distinct-key effect present afterwards; (5) replicated state: local mutators on distinct keys + NotifyMsg/MergeRemoteState/LocalState concurrently, final listing = LWW reference; (6) a session's filter list AddTopic/RemoveTopic/GetTopics; (7) two broker nodes with 30 clients connecting, subscribing, publishing QoS 1/2, disconnecting, while forced expiry sweeps and push/pull exchanges run; conservation oracle of C02 on the steady subscribers; (8) the lifecycle / takeover / will / tenant / retransmission / cross-node scenarios of C11, C12, C13, C17, C03 and C14 re-run under the detector (their own oracles are not judged here). Any race report is a violation. distinct = (workload, round); non-trivial = all"
+	c.Rule = "built with the Go race detector (GORACE halt_on_error=0, reports collected by the parent and de-duplicated by the pair of outermost non-runtime frames). Repeated randomized stress on all cores, few keys, many goroutines: (1) session registry Create/Get/Delete/ListSessions checked with porcupine against a per-key register; (2) identifier pool Get/Put with a shadow set updated under the harness's lock; (3) in-flight table Insert/Ack/Expire on shared keys with a concurrent sweeper, exactly one outcome per registration; (4) both tries, writers on distinct keys and readers on all (also on stores rebuilt by Load), every distinct-key effect present afterwards; (5) replicated state: local mutators on distinct keys + NotifyMsg/MergeRemoteState/LocalState concurrently, final listing = LWW reference; (5b) one hot retained topic written locally by three goroutines while a peer's ahead-stamped updates of it are merged, node vs follower; (6) a session's filter list AddTopic/RemoveTopic/GetTopics; (7) two broker nodes with 30 clients connecting, subscribing, publishing QoS 1/2, disconnecting, while forced expiry sweeps and push/pull exchanges run; conservation oracle of C02 on the steady subscribers; (8) the lifecycle / takeover / will / tenant / retransmission / cross-node scenarios of C11, C12, C13, C17, C03 and C14 re-run under the detector (their own oracles are not judged here). Any race report is a violation. distinct = (workload, round); non-trivial = all"
 	c.Assume("the race detector only sees interleavings the stress produced, and only Go synchronisation")
 	c.Extra("gomaxprocs", runtime.GOMAXPROCS(0))
 	rounds := c.Pick(8, 40)
@@ -628,6 +703,7 @@ func runC20(c *fw.Ctx) {
 		timed("tries", func() { c20Tries(c, r) })
 		timed("replicated", func() { c20Replicated(c, r) })
 		timed("merge_race", func() { c20MergeRace(c, r) })
+		timed("hot_topic", func() { c20HotTopic(c, r) })
 		timed("session_topics", func() { c20SessionTopics(c, r) })
 	}
 	for r := 0; r < c.Pick(4, 16); r++ {
